@@ -230,6 +230,10 @@ fn raw_core(which: Which, case: &RawCase) -> CaseOutcome
             o.class("file-empty");
         }
     }
+    if case.tree.alias_link
+    {
+        o.class("tree-with-symlink-alias-of-a-source-file");
+    }
     if total_ins == 0
     {
         o.class("tree-nothing-missing");
@@ -270,6 +274,7 @@ fn raw_core(which: Which, case: &RawCase) -> CaseOutcome
                     || d.signature == "out-of-scope-file-changed"
                     || d.signature == "edit-vs-parser-mismatch"
                     || d.signature == "check-no-total"
+                    || d.signature == "unexpected-file-after-edit"
                     || d.signature == "other-files-not-processed-after-unreadable-file"
             });
         },
